@@ -288,7 +288,15 @@ struct Case
     fs::path const pth{bname};
     if (pth.extension().string().empty()) return bname[0] == '.' ? "hidden" : "noext";
     if (pth.extension().string() == ".") return "trail";
-    return pth.stem().string().find('.') != std::string::npos ? "dots" : "ext";
+    std::string const st = pth.stem().string();
+    auto const ld = st.rfind('.');
+    if (ld == std::string::npos) return "ext";
+    // "x.1.log": the current file itself passes the scan filter ("x.1." + "log") and parses as rotated file #1 of "x.log"
+    // (finding F29) — the stem's last component is a number
+    std::string const last = st.substr(ld + 1);
+    bool num = !last.empty();
+    for (char ch : last) num = num && ch >= '0' && ch <= '9';
+    return num ? "numstem" : "dots";
   }
   bool scan_blind() const { return fa != 'N' || fs::path{bname}.extension().string().empty(); }
   void remove_dir()
@@ -879,6 +887,7 @@ struct Case
     std::cout << "case " << id << " " << scheme0 << " dst=" << (dst ? 1 : 0) << " " << kind << " tz=" << tz;
     if (bname != "log.log") std::cout << " base=" << bname;
     if (sinkk != 'F') std::cout << " sink=" << sinkk;
+    if (base_class() == "numstem") std::cout << " oo=numstem"; // oracle only: the model's scan does not parse the current file
     if (fa != 'N') std::cout << " fa=" << fa;
     std::cout << "\n" << out.str();
   }
@@ -1132,7 +1141,7 @@ static uint64_t gen_cfgchg_prefix(Case& c, Rng& rng, Rng& srng, StartCfg& cfg)
   return last;
 }
 
-static char const* const BASES[] = {"noext", ".log", "trail.", "a.b.log", "log.tar.gz", "x.1.log", "noext", "a.b.log"};
+static char const* const BASES[] = {"noext", ".log", "trail.", "a.b.log", "log.tar.gz", "x.y1.log", "noext", "a.b.log"};
 
 static void gen_case(Rng& rng, std::string const& id, unsigned nops, bool c15, uint64_t spell_seed, unsigned variant = 0)
 {
